@@ -40,7 +40,7 @@ def cbmc_version():
 class Job:
     def __init__(self, name, engine, harness, entry, props, enforce=None, replace=(), defs=(),
                  loop_contracts=False, cbmc_args=(), timeout=600, mem_gb=6, tier="quick",
-                 unwindset=None, note="", expect_fail=(), nondet_static=False, gi_args=(), part=None):
+                 unwindset=None, note="", expect_fail=(), nondet_static=False, gi_args=(), part=None, cc_args=()):
         self.name = name
         self.engine = engine
         self.harness = harness          # path relative to VERIF
@@ -58,6 +58,7 @@ class Job:
         self.note = note
         self.expect_fail = list(expect_fail)   # tags of must-fail (vacuity) obligations
         self.gi_args = list(gi_args)
+        self.cc_args = list(cc_args)
         self.part = part                # (i, n): this job checks the i-th of n shares of the obligations
 
     def workdir(self):
@@ -153,6 +154,7 @@ def build_job(job, log):
           "-I" + os.path.join(VERIF, "contracts"), "-I" + os.path.join(VERIF, "stubs"),
           "-I" + os.path.join(VERIF, "spec"), "-I" + os.path.join(VERIF, "bounded")]
     cc += ["-D" + d for d in job.defs]
+    cc += job.cc_args
     cc += [os.path.join(VERIF, job.harness), "--function", job.entry, "-o", a]
     rc, out, err, secs, to = run_cmd(cc, 120, 4)
     log.append({"step": "goto-cc", "cmd": " ".join(cc), "rc": rc, "secs": round(secs, 2), "stderr": (err or "")[-4000:]})
@@ -228,7 +230,7 @@ def run_job(job, use_cache=True):
         res.update({"status": "undecided", "reason": "build: " + str(e)[-1500:], "log": log,
                     "wall_s": round(time.time() - t0, 2), "obligations": [], "n": 0, "n_ok": 0})
         return res
-    cb = ["cbmc", binary, "--json-ui", "--object-bits", "10"] + job.cbmc_args
+    cb = ["cbmc", binary, "--json-ui"] + ([] if "--object-bits" in job.cbmc_args else ["--object-bits", "10"]) + job.cbmc_args
     if job.part:
         try:
             vac, names = list_properties(binary, job)
@@ -267,7 +269,19 @@ def run_job(job, use_cache=True):
             except Exception:
                 pass
         outp = os.path.join(job.workdir(), "cbmc.json")
-        rc, out, err, secs, to = run_cmd(cb, job.timeout, job.mem_gb, stdout_path=outp)
+        # solver ladder: the default SAT back end (minisat2) first; if it does not finish within the
+        # first time box, the same instance again with cadical (measured: instances on which one of
+        # the two needs > 15 min are solved by the other in < 1 min). Both are complete decision
+        # procedures for the same formula, so whichever answers first decides.
+        first_box = job.timeout if job.engine not in ("E1",) else min(job.timeout, max(240, job.timeout // 4))
+        rc, out, err, secs, to = run_cmd(cb, first_box, job.mem_gb, stdout_path=outp)
+        res["backend"] = "minisat2"
+        if to and first_box < job.timeout:
+            cb2 = cb + ["--sat-solver", "cadical"]
+            res["cbmc_cmd"] = " ".join(cb2)
+            res["backend"] = "cadical (after minisat2 exceeded %ds)" % first_box
+            rc, out, err, secs2, to = run_cmd(cb2, job.timeout, job.mem_gb, stdout_path=outp)
+            secs += secs2
         res["solver_s"] = round(secs, 2)
         res["cbmc_rc"] = rc
         results, verdict, msgs = (None, None, "")
@@ -320,7 +334,7 @@ def run_job(job, use_cache=True):
 
 def list_properties(binary, job):
     """Names of all obligations of a goto binary, in CBMC's order (vacuity controls first in the list)."""
-    cmd = ["cbmc", binary, "--show-properties", "--json-ui", "--object-bits", "10"] + job.cbmc_args
+    cmd = ["cbmc", binary, "--show-properties", "--json-ui"] + ([] if "--object-bits" in job.cbmc_args else ["--object-bits", "10"]) + job.cbmc_args
     rc, out, err, secs, to = run_cmd(cmd, 600, 8)
     names = []
     vac = []
